@@ -221,7 +221,7 @@ func c04Specs(quick bool) []*SeqSpec {
 	ramps := []int{7, 8, 9}
 	if !quick {
 		d, rd = 6, 4
-		ramps = []int{7, 8, 9, 127, 128, 129, 130}
+		ramps = []int{7, 8, 9, 127, 128, 129, 130, 145, 146, 147}
 	}
 	specs := []*SeqSpec{{Name: "queue-order", Cfg: cfg, Alphabet: c04Alphabet(quick), Depth: d, MaxStates: 600000, Drain: true}}
 	// requests that only wait for the key to become free (expiry 0: answered SUCCED without a hold, as the
@@ -247,7 +247,7 @@ func c04Specs(quick bool) []*SeqSpec {
 		op(1, L(0, 1, 2, 6, 30, 1, 0)),
 		op(1, L(0, 1, 3, 6, 30, 2, 0)),
 		op(0, hapi.Cmd{Type: 1, Key: 1, Id: 1, Flag: 0x02, Expried: 30, Count: 1, Rcount: 1}), // update: Count 0 -> 1
-		op(0, L(0, 1, 1, 0, 30, 2, 1)),                                                         // re-entrant lock: depth 2, Count 2
+		op(0, L(0, 1, 1, 0, 30, 2, 1)), // re-entrant lock: depth 2, Count 2
 		op(0, hapi.Cmd{Type: 2, Key: 1, Id: 1, Rcount: 1}),
 		op(0, U(0, 1, 1)),
 		tick(2 * sec),
@@ -265,6 +265,11 @@ func c04Specs(quick bool) []*SeqSpec {
 		tick(3 * sec), tick(5 * sec),
 	}})
 	specs = append(specs, &SeqSpec{Name: "queue-order-over-connections", Cfg: cfg, Alphabet: c04Alphabet(quick), Depth: d - 2, Drain: true, Full: true, NoDedupe: true, MaxStates: 600000})
+	if quick {
+		// a FIFO queue that has outgrown its inline buffer (143 entries, the rest in the overflow ring) when the first
+		// waiter of another priority arrives and the queue is rebuilt as priority rings
+		specs = append(specs, &SeqSpec{Name: "ramp-146-waiters-prio", Cfg: cfg, Ramp: rampWaiters(146, true), Alphabet: rampWaitAlphabet(146), Depth: 2, Drain: true, DrainFor: 70 * sec})
+	}
 	for _, n := range ramps {
 		specs = append(specs, &SeqSpec{Name: fmt.Sprintf("ramp-%d-waiters", n), Cfg: cfg, Ramp: rampWaiters(n, false), Alphabet: rampWaitAlphabet(n), Depth: rd, Drain: true, DrainFor: 70 * sec})
 		specs = append(specs, &SeqSpec{Name: fmt.Sprintf("ramp-%d-waiters-prio", n), Cfg: cfg, Ramp: rampWaiters(n, true), Alphabet: rampWaitAlphabet(n), Depth: rd, Drain: true, DrainFor: 70 * sec})
